@@ -31,6 +31,7 @@ func cmdWTrace(args []string) int {
 	seed := fs.Int64("seed", 1, "seed for yields, admin timing and the choice snapshot/compaction")
 	kinds := fs.String("kinds", "", "mapping of lazy writer command numbers: 4=flush,5=sync,...")
 	closeEarly := fs.Bool("close-early", false, "call Close while clients are still writing")
+	nVAdd := fs.Int("vadd", 0, "how many of the clients write with VAdd (one vector per version, own index) instead of KVSet")
 	fs.Parse(args)
 	slog.SetDefault(slog.New(slog.NewTextHandler(io.Discard, nil)))
 
@@ -58,6 +59,22 @@ func cmdWTrace(args []string) int {
 		return 2
 	}
 
+	clients := make([]string, *nClients)
+	kindOf := map[string]wclient{}
+	for i := range clients {
+		clients[i] = fmt.Sprintf("c%d", i+1)
+		kindOf[clients[i]] = wclient{kind: "kv"}
+		if i < *nVAdd {
+			kindOf[clients[i]] = wclient{kind: "vadd"}
+			if err := kindOf[clients[i]].prepare(e, []string{clients[i]}); err != nil {
+				fmt.Fprintln(os.Stderr, "prepare:", err)
+				return 2
+			}
+		}
+	}
+	if *nVAdd > 0 {
+		e.AOF.Flush() // the writer's buffer is empty when the trace starts, as in Writer.tla's Init
+	}
 	var mu sync.Mutex
 	var events []map[string]any
 	emit := func(ev map[string]any) {
@@ -81,18 +98,20 @@ func cmdWTrace(args []string) int {
 			time.Sleep(time.Millisecond)
 		}
 	}
-	clientOfKey := func(k string) string { return strings.TrimPrefix(k, "key-") }
+	clientOfKey := func(k string) string { return strings.TrimPrefix(strings.TrimPrefix(k, "key-"), "ix-") }
 	verifhook.Set(func(name string, kv []any) {
 		switch name {
 		case "op.journaling":
-			if len(kv) >= 2 && kv[0] == "KVSet" {
+			if len(kv) >= 2 && (kv[0] == "KVSet" || kv[0] == "VAdd") {
 				emit(map[string]any{"e": "journaling", "c": clientOfKey(fmt.Sprint(kv[1]))})
 			}
 			jitter()
 		case "op.journaled":
-			if len(kv) >= 2 && kv[0] == "KVSet" {
+			if len(kv) >= 2 && (kv[0] == "KVSet" || kv[0] == "VAdd") {
 				emit(map[string]any{"e": "journaled", "c": clientOfKey(fmt.Sprint(kv[1]))})
 			}
+			jitter()
+		case "op.applying":
 			jitter()
 		case "lw.cmd":
 			k, _ := kv[0].(int)
@@ -112,17 +131,13 @@ func cmdWTrace(args []string) int {
 		}
 	})
 
-	clients := make([]string, *nClients)
-	for i := range clients {
-		clients[i] = fmt.Sprintf("c%d", i+1)
-	}
 	var wg sync.WaitGroup
 	for _, c := range clients {
 		wg.Add(1)
 		go func(c string) {
 			defer wg.Done()
 			for v := 1; v <= *nVers; v++ {
-				err := e.KVSet("key-"+c, []byte(fmt.Sprintf("%d", v)))
+				err := kindOf[c].write(e, c, v)
 				emit(map[string]any{"e": "ack", "c": c, "v": v, "ok": err == nil})
 				jitter()
 				if err != nil {
@@ -189,8 +204,16 @@ func cmdWTrace(args []string) int {
 	vals := map[string]any{}
 	for _, c := range clients {
 		v := 0
-		if raw, ok := e2.KVGet("key-" + c); ok {
-			fmt.Sscanf(string(raw), "%d", &v)
+		if kindOf[c].kind == "kv" {
+			if raw, ok := e2.KVGet("key-" + c); ok {
+				fmt.Sscanf(string(raw), "%d", &v)
+			}
+		} else {
+			// one vector per version: the recovered version is the length of the contiguous prefix that is there
+			// (a missing version below a present one shows as a lower value and is rejected by the specification)
+			for v < *nVers && kindOf[c].has(e2, c, v+1) {
+				v++
+			}
 		}
 		vals[c] = v
 	}
